@@ -241,3 +241,48 @@ func VerifCoalescingBackoffStep() {
 	}
 	zzverif.Cover("coalescing_backoff_step_done")
 }
+
+// Close with a signal that nobody reads: the consumer has stopped reading, one or two Adds have been signalled (or are
+// about to be), and the caller's context is NOT cancelled - Close alone must end the limiter: it returns, Run returns,
+// and no helper goroutine is left. A later Add after Close does not block either.
+//
+//verif:harness prop=C09 name=coalescing_close_unread threads=8 sched=delay preempt=2 t_preempt=3 unwind=12 witness=lenient
+func VerifCoalescingCloseUnread() {
+	start := zzverif.TimeFromNanos(1_000_000_000)
+	clk := zzverifstubs.NewClock(start)
+	ini, max := vInitial, vMax
+	rl, err := NewCoalescing(OptionsCoalescing{InitialDelay: &ini, MaxDelay: &max})
+	zzverif.Assert(err == nil, "valid_options_accepted")
+	c := rl.(*coalescing)
+	c.clock = clk
+	ch := make(chan struct{}) // nobody ever receives from it
+	runDone := make(chan struct{})
+	go func() {
+		c.Run(context.Background(), ch)
+		close(runDone)
+	}()
+	c.Add()
+	if zzverif.Bool("second_add_inside_window") {
+		zzverif.WaitQuiescent()
+		c.Add()
+		if zzverif.Bool("window_expires") {
+			zzverif.WaitQuiescent()
+			clk.Advance(2 * vInitial)
+		}
+	}
+	if zzverif.Bool("settle_before_close") {
+		zzverif.WaitQuiescent()
+	}
+	closed := make(chan struct{})
+	go func() {
+		zzverif.MustFinish()
+		c.Close()
+		close(closed)
+	}()
+	<-closed
+	<-runDone
+	c.Add() // after Close: must not block the caller
+	zzverif.WaitQuiescent()
+	zzverif.Assert(zzverif.ThreadsAliveIs(0), "helpers_finished_when_close_returns")
+	zzverif.Cover("coalescing_close_unread_done")
+}
